@@ -174,6 +174,7 @@ class ModelFS:
         self.written_sizes = [*written_sizes]
         self.size_of = {}             # logical Manifest path -> uncompressed size
         self.sysroot = None           # optional node standing for '/'
+        self.dump_args = []           # (path, sign_openpgp as passed, keyid) per dump
         self._wtok = 0
         self.walk_fuel = walk_fuel
         self.ncalls = 0
@@ -559,6 +560,7 @@ def _m_load(mf, f, verify_openpgp=True, openpgp_env=None):
 def _m_dump(mf, f, sign_openpgp=None, openpgp_keyid=None, openpgp_env=None, sort=False):
     if not isinstance(f, _Handle):
         return _REAL_DUMP(mf, f, sign_openpgp, openpgp_keyid, openpgp_env, sort)
+    f.fs.dump_args.append((f.path, sign_openpgp, openpgp_keyid))
     if sign_openpgp is None:
         sign_openpgp = mf.openpgp_signed
     if RENDER[0]:
